@@ -11,17 +11,28 @@ open Node
 def Win (lo hi : Nat) (Δ : Env) : Prop := ∀ p ∈ Δ, lo ≤ p.1 ∧ p.1 < hi
 def Avoid (a0 a1 : Nat) (Δ : Env) : Prop := ∀ p ∈ Δ, p.1 < a0 ∨ a1 ≤ p.1
 
+/-- no binding of `Δ` has a key in `bad` -/
+def AvoidP (bad : Nat → Prop) (Δ : Env) : Prop := ∀ p ∈ Δ, ¬ bad p.1
+
+theorem AvoidP.nil (bad : Nat → Prop) : AvoidP bad [] := by intro p hp; cases hp
+
+theorem AvoidP.append {bad : Nat → Prop} {Δ Δ' : Env} (h : AvoidP bad Δ) (h' : AvoidP bad Δ') : AvoidP bad (Δ ++ Δ') := by
+  intro p hp
+  rcases List.mem_append.mp hp with hp | hp
+  · exact h p hp
+  · exact h' p hp
+
+/-- a context: a base environment and the keys later bindings must stay away from -/
 structure Cx where
-  a0 : Nat
-  a1 : Nat
+  bad : Nat → Prop
   base : Env
 
-/-- `σ` extends the base by bindings outside `[a0, a1)` -/
-def Cx.ext (cx : Cx) (σ : Env) : Prop := ∃ Δ, σ = Δ ++ cx.base ∧ Avoid cx.a0 cx.a1 Δ
+/-- `σ` extends the base by bindings whose keys are not `bad` -/
+def Cx.ext (cx : Cx) (σ : Env) : Prop := ∃ Δ, σ = Δ ++ cx.base ∧ AvoidP cx.bad Δ
 
 theorem Cx.ext_base (cx : Cx) : cx.ext cx.base := ⟨[], rfl, by intro p hp; cases hp⟩
 
-theorem Cx.ext_append {cx : Cx} {σ Δ : Env} (h : cx.ext σ) (ha : Avoid cx.a0 cx.a1 Δ) : cx.ext (Δ ++ σ) := by
+theorem Cx.ext_append {cx : Cx} {σ Δ : Env} (h : cx.ext σ) (ha : AvoidP cx.bad Δ) : cx.ext (Δ ++ σ) := by
   obtain ⟨Δ0, rfl, h0⟩ := h
   refine ⟨Δ ++ Δ0, by simp, ?_⟩
   intro p hp
@@ -48,13 +59,8 @@ theorem Win.append {lo hi : Nat} {Δ Δ' : Env} (h : Win lo hi Δ) (h' : Win lo 
 theorem Win.mono {lo hi lo' hi' : Nat} {Δ : Env} (h : Win lo hi Δ) (h1 : lo' ≤ lo) (h2 : hi ≤ hi') : Win lo' hi' Δ := by
   intro p hp; have := h p hp; omega
 
-theorem Win.avoid_hi {lo hi a0 a1 : Nat} {Δ : Env} (h : Win lo hi Δ) (h1 : hi ≤ a0) : Avoid a0 a1 Δ := by
-  intro p hp; have := h p hp; omega
-
-theorem Win.avoid_lo {lo hi a0 a1 : Nat} {Δ : Env} (h : Win lo hi Δ) (h1 : a1 ≤ lo) : Avoid a0 a1 Δ := by
-  intro p hp; have := h p hp; omega
-
-theorem Avoid.empty (c : Nat) (Δ : Env) : Avoid c c Δ := by intro p _; omega
+theorem Win.avoidP {lo hi : Nat} {bad : Nat → Prop} {Δ : Env} (h : Win lo hi Δ) (h1 : ∀ k, bad k → hi ≤ k) : AvoidP bad Δ := by
+  intro p hp hb; have := h p hp; have := h1 _ hb; omega
 
 def Er (cx : Cx) (lo hi : Nat) (e' e : Node) : Prop :=
   ∀ σ, cx.ext σ → ∃ X Δ, erase σ e' = (X, Δ ++ σ) ∧ Sim X e ∧ Win lo hi Δ
